@@ -42,9 +42,20 @@ impl Prop for C13 {
         }
         let mut configs: Vec<Config> = vec![base.clone()];
         // add_patterns twin: a single-mode INITIAL configuration with index token types
-        if rng.chance(1, 3) {
-            configs.push(gen::make_simple(&base));
+        if rng.chance(1, 2) {
+            let simple = gen::make_simple(&base);
+            configs.push(simple.clone());
             note.push_str(" simple");
+            // pattern lists whose concatenation coincides with the simple one's
+            for _ in 0..rng.range(0, 2) {
+                if let Some(m) = gen::merge_simple_variant(rng, &simple) {
+                    if !configs.contains(&m) {
+                        configs.push(m);
+                        note.push_str(" merged");
+                        mark("probe.family_has_merged_pattern_lists");
+                    }
+                }
+            }
         }
         let nv = rng.range(3, 8);
         for _ in 0..nv {
@@ -113,7 +124,7 @@ impl Prop for C13 {
         &[
             "probe.hit", "probe.miss", "probe.hit_after_other_config", "probe.hit_after_failure", "probe.failing_build",
             "probe.failure_with_populated_cache", "probe.repeated_failure", "probe.family_has_polarity_twins",
-            "probe.add_patterns_build", "probe.behaviour_comparisons", "probe.variant_distinguished_by_probe_inputs",
+            "probe.add_patterns_build", "probe.family_has_merged_pattern_lists", "probe.behaviour_comparisons", "probe.variant_distinguished_by_probe_inputs",
             "fault.build_fail", "fault.cache_pollution",
         ]
     }
